@@ -242,7 +242,8 @@ class HistogramLayerState(MatplotlibLayerState):
                             self.viewer_state.x_log,
                             self.viewer_state.hist_x_min,
                             self.viewer_state.hist_x_max,
-                            self.viewer_state.hist_n_bin)
+                            self.viewer_state.hist_n_bin,
+                            self.viewer_state.random_subset)
 
         if self._histogram_cache is not None and self._histogram_cache[0] == current_settings:
             return self._histogram_cache[1]
